@@ -82,6 +82,16 @@ func (p *Proxy) SetFault(kind cache.EntryKind, hash string, f Fault) {
 	p.mu.Unlock()
 }
 
+// ClearFaults drops scripted faults that no request has consumed and reports
+// how many there were.
+func (p *Proxy) ClearFaults() int {
+	p.mu.Lock()
+	defer p.mu.Unlock()
+	n := len(p.GetFault)
+	p.GetFault = map[string]Fault{}
+	return n
+}
+
 func (p *Proxy) NumGets() int  { p.mu.Lock(); defer p.mu.Unlock(); return len(p.GetCalls) }
 func (p *Proxy) NumConts() int { p.mu.Lock(); defer p.mu.Unlock(); return len(p.ContCalls) }
 func (p *Proxy) PutsCopy() []PutRec {
